@@ -27,9 +27,9 @@ def walk(node: StateNode):
 
 def guard_rec(g: Optional[GuardDefinition], guard_names: set) -> Rec:
     if g is None:
-        return Rec(op="none", name="", kids=[], arg=[])
+        return Rec(op="none", name="", vk="", kids=[], arg=[])
     if g.is_composite:
-        return Rec(op=g.type, name=g.type, kids=[guard_rec(c, guard_names) for c in g.children], arg=[])
+        return Rec(op=g.type, name=g.type, vk="", kids=[guard_rec(c, guard_names) for c in g.children], arg=[])
     if g.is_state_in:
         params = g.params
         target = None
@@ -41,9 +41,17 @@ def guard_rec(g: Optional[GuardDefinition], guard_names: set) -> Rec:
         if isinstance(target, str) and target:
             arg = (target[1:] if target.startswith("#") else target).split(".")
         guard_names.add(g.type)
-        return Rec(op="stateIn", name=g.type, kids=[], arg=arg)
-    guard_names.add(g.type)
-    return Rec(op="atom", name=g.type, kids=[], arg=[])
+        return Rec(op="stateIn", name=g.type, vk=g.type, kids=[], arg=arg)
+    vk = guard_vk(g.type, g.params)
+    guard_names.add(vk)
+    return Rec(op="atom", name=g.type, vk=vk, kids=[], arg=[])
+
+
+def guard_vk(name: str, params) -> str:
+    """Key of the guard valuation: name, or name:<k> for params {"k": ...} (harness convention)."""
+    if isinstance(params, dict) and "k" in params and isinstance(params["k"], str):
+        return f"{name}:{params['k']}"
+    return name
 
 
 def action_rec(a, out_tag) -> Rec:
